@@ -160,6 +160,8 @@ def serverRespond (datagram : Bytes) : Except DecErr (Option Bytes) :=
 /-- as it was: `from_bytes(..).unwrap()`, `query_name().unwrap()`, and the spawned task
     `respond_to_query(..).await.unwrap()` (so an unknown name panicked as well) -/
 def serverRespondV0 (datagram : Bytes) : Except DecErr (Option Bytes) :=
+  -- an empty datagram never completes `recv(80)`; at shutdown its `Err(Shutdown)` was unwrapped
+  if datagram = [] then .error (.panic "panic:unwrap:dns_server_recv") else
   match fromBytes (datagram.take 80) with
   | .error (.panic s) => .error (.panic s)
   | .error _ => .error (.panic "panic:unwrap:dns_server_from_bytes")
@@ -202,5 +204,10 @@ def clientHandleV0 (name resp : Bytes) : Except DecErr (Option Nat) :=
         else .error (.panic "panic:unwrap:dns_client_get_mapping")
       | _ => .error (.panic "panic:index:dns_client_rdata")
     else .error (.panic "panic:unwrap:dns_client_answer_name")
+
+/-- no answer ever arrives: `recv_msg` ends with `Err(Shutdown)` when the simulation stops.
+    Current code: `Err(DnsClientError)`; as it was: unwrapped. -/
+def clientNoAnswer : Except DecErr (Option Nat) := .ok none
+def clientNoAnswerV0 : Except DecErr (Option Nat) := .error (.panic "panic:unwrap:dns_client_recv")
 
 end Elvis.CodecB.Dns
